@@ -73,6 +73,31 @@ class _Cvc5Job:
             pass
 
 
+def _z3_child(smt, timeout_s, want_model=True):
+    """z3 (the wheel's CLI, same version as the API) on an SMT-LIB2 text in a killable child -> (sat|unsat|unknown, model text)"""
+    f = tempfile.NamedTemporaryFile("w", suffix=".smt2", delete=False, dir=os.environ.get("PYVC_TMP"))
+    f.write(smt.replace("(check-sat)", "") + "\n(check-sat)\n" + ("(get-model)\n" if want_model else ""))
+    f.close()
+    exe = os.path.join(os.path.dirname(sys.executable), "z3")
+    if not os.path.exists(exe):
+        exe = "z3-new"
+    try:
+        p = subprocess.run([exe, "-T:%d" % max(1, int(timeout_s)), f.name], capture_output=True, text=True, timeout=timeout_s + 10)
+        out = p.stdout
+    except (subprocess.TimeoutExpired, OSError):
+        out = ""
+    finally:
+        try:
+            os.unlink(f.name)
+        except OSError:
+            pass
+    lines = out.strip().splitlines()
+    ans = lines[0].strip() if lines else "unknown"
+    if ans not in ("sat", "unsat"):
+        return "unknown", None
+    return ans, ("\n".join(lines[1:])[:6000] if ans == "sat" else None)
+
+
 def _cvc5_smt(smt, timeout_s):
     return _Cvc5Job(smt, timeout_s).result()
 
@@ -124,7 +149,9 @@ def check_valid(assumptions, goal, lemmas=(), timeout_ms=None, want_model=True, 
     base = list(assumptions) + [neg]
     # only lemmas that talk about functions occurring in the query (keeps quantifiers out of queries that cannot use them)
     base_ids = defs.decl_ids(base + defs.instances(base, 1))
-    lem = [defs.forall_uf(*l) for _, l in lemmas if defs.lemma_relevant(l, base_ids)]
+    # (lemmas of the sidecar named in `use` are always passed on: the relevance filter is for the list/dict library `Type.lemma`)
+    lem = [defs.forall_uf(*l) for n, l in lemmas if "." not in n or defs.lemma_relevant(l, base_ids)]
+    axioms = [l for n, l in lemmas if n.startswith("axiom:")]
     cvc5_budget = 60 if thorough else 25
 
     def build(fuel):
@@ -277,18 +304,15 @@ def check_valid(assumptions, goal, lemmas=(), timeout_ms=None, want_model=True, 
             if rc == "sat" and fuel == max_fuel:
                 break
     if refute:
-        s2 = _solver(timeout_ms)
+        # define-fun-rec encoding, in a child process: z3's recursive-function unfolding over sequences can ignore its own
+        # timeout (seen on Registry.match), and a checker that hangs is worse than one that says `unknown`
+        s2 = z3.Solver()
         for a in base:
             s2.add(a)
-        r2 = s2.check()
-        if r2 == z3.sat:
-            m = None
-            if want_model:
-                try:
-                    mdl = s2.model()
-                    m = "\n".join("%s = %s" % (d.name(), mdl[d]) for d in mdl.decls() if d.arity() == 0)[:6000]
-                except Exception as e:      # pragma: no cover
-                    m = "<model unavailable: %s>" % e
+        for (qv, body, pats) in axioms:
+            s2.add(z3.ForAll(list(qv), body, patterns=list(pats)) if (qv and pats) else (z3.ForAll(list(qv), body) if qv else body))
+        r2, m = _z3_child(s2.to_smt2(), timeout_ms / 1000.0, want_model)
+        if r2 == "sat":
             return dict(status="refuted", time_s=time.time() - t0, model=m, backend="z3")
     return dict(status="unknown", time_s=time.time() - t0, model=None, backend="z3+cvc5", reason=last,
                 disagreement=disagreement)
@@ -469,7 +493,8 @@ def used_lemmas(sm, names):
     out = []
     for n in names:
         lem = next(l for l in sm.lemmas if l["name"] == n)
-        out.append((n, lemma_formula(sm, lem)))
+        # an assumed lemma is an axiom about an opaque function: it also constrains the counter-model search
+        out.append((("axiom:" + n) if lem.get("assumed") else n, lemma_formula(sm, lem)))
     return out
 
 
@@ -481,6 +506,12 @@ def prove_lemmas(modname):
     for lem in sm.lemmas:
         t0 = time.time()
         rec = dict(name="lemma:" + sm.name + ":" + lem["name"], kind="lemma", properties=lem["properties"])
+        if lem.get("assumed"):
+            rec.update(status="assumed", time_s=0.0, backend="none", note=lem.get("note", ""),
+                       statement="%s => %s" % (" and ".join(lem["hyps"]) or "True", lem["goal"]))
+            proved[lem["name"]] = True
+            res.append(rec)
+            continue
         try:
             ctx = Ctx(type("C", (), dict(key="lemma:" + lem["name"], ns=sm.ns, locals={}, loops={}, calls={}, raises={},
                                          globals={}, file="", comp_types={}, result_type=None))(), sm.ns)
